@@ -272,6 +272,209 @@ void Runner<T, E>::run_impl(Plan const& p, std::vector<std::size_t> const& calls
     }
 }
 
+// a checkpoint class of the user's own: the channel weights never change
+template <typename T, typename E>
+class FixedWeightsChkpt : public hep::chkpt_with_rng<E, hep::chkpt<hep::multi_channel_result<T>>>
+{
+public:
+    FixedWeightsChkpt(E const& generator, std::vector<T> const& weights)
+        : hep::chkpt_with_rng<E, hep::chkpt<hep::multi_channel_result<T>>>(generator)
+        , weights_(weights)
+    {
+    }
+
+    void channels(std::size_t n)
+    {
+        if (weights_.size() != n) weights_.assign(n, T(1) / T(n));
+    }
+
+    std::vector<T> const& channel_weights() const { return weights_; }
+
+private:
+    std::vector<T> weights_;
+};
+
+template <typename T, typename E>
+std::string Runner<T, E>::user_chkpt_modes(Plan const& p, std::vector<u64> const& calls64, RunCtl const& ctl)
+{
+    if (p.integ != MULTI) return std::string();
+    using Chk = FixedWeightsChkpt<T, E>;
+    std::vector<std::size_t> const calls(calls64.begin(), calls64.end());
+
+    ChannelMap cmap;
+    cmap.build(p);
+    std::vector<hep::distribution_parameters<T>> const params = dist_params(p);
+    std::vector<T> weights(p.chan, T(1) / T(p.chan));
+    std::string texts[4];
+    std::string failure;
+
+    CapBuf cap;
+    std::streambuf* const old = std::cout.rdbuf(&cap);
+    FsModel& m = fs();
+
+    for (int mode = 0; mode != 4 && failure.empty(); ++mode)
+    {
+        m.reset();
+        m.new_incarnation();
+        m.active = true;
+        Ctx c;
+        RunCtl quiet = ctl;
+        quiet.kill_armed = false;
+        arm(c, p, quiet, 0, 0);
+        Ctx* const prev = current_ctx();
+        current_ctx() = &c;
+        MultiFunc<T> f;
+        f.plan = &p;
+        f.cmap = &cmap;
+        MultiMap<T> mm;
+        mm.plan = &p;
+        mm.cmap = &cmap;
+
+        try
+        {
+            Chk const start(E(p.eseed), weights);
+            hep::callback<Chk> cb(static_cast<hep::callback_mode>(mode), "/hepsim/user-chkpt.chkpt");
+            std::ostringstream o;
+            if (p.acc != 0)
+            {
+                hep::multi_channel_integrand<T, MultiFunc<T>, MultiMap<T>, true> in(f, p.dims, mm,
+                    p.mapd ? p.mapd : p.dims, p.chan, params);
+                Chk const r = hep::multi_channel(in, calls, start, cb);
+                r.serialize(o);
+            }
+            else
+            {
+                hep::multi_channel_integrand<T, MultiFunc<T>, MultiMap<T>, false> in(f, p.dims, mm,
+                    p.mapd ? p.mapd : p.dims, p.chan, {});
+                Chk const r = hep::multi_channel(in, calls, start, cb);
+                r.serialize(o);
+            }
+            texts[mode] = o.str();
+            if (mode != 0 && texts[mode] != texts[0]) failure = "mode " + std::to_string(mode) + " returns other results than mode 0";
+            if ((mode == 1 || mode == 3) && failure.empty())
+            {
+                auto it = m.files.find("/hepsim/user-chkpt.chkpt");
+                if (it == m.files.end() || it->second != texts[mode]) failure = "mode " + std::to_string(mode) + ": the file is not the returned checkpoint";
+            }
+        }
+        catch (std::exception const& e)
+        {
+            failure = "mode " + std::to_string(mode) + ": exception " + e.what();
+        }
+        catch (killed const&)
+        {
+            failure = "mode " + std::to_string(mode) + ": killed";
+        }
+
+        c.counting = false;
+        current_ctx() = prev;
+        m.active = false;
+    }
+
+    std::cout.rdbuf(old);
+    std::cout.clear();
+    return failure;
+}
+
+template <typename T, typename E>
+bool Runner<T, E>::redo_last_by_hand(Plan const& p, u64 calls64, RunCtl const& ctl)
+{
+    u64 const n = nresults();
+    if (n == 0) return false;
+    std::size_t const calls = static_cast<std::size_t>(calls64);
+
+    ChannelMap cmap;
+    if (p.integ == MULTI) cmap.build(p);
+    std::vector<hep::distribution_parameters<T>> params = dist_params(p);
+
+    Ctx c;
+    RunCtl quiet = ctl;
+    quiet.kill_armed = false;
+    arm(c, p, quiet, 0, n - 1);
+    Ctx* const prev = current_ctx();
+    current_ctx() = &c;
+    bool ok = true;
+
+    try
+    {
+        if (integ_ == PLAIN)
+        {
+            PlainFunc<T> f;
+            f.plan = &p;
+            f.cmap = &cmap;
+            pc_->rollback(n - 1);
+            E gen(pc_->generator());
+            if (p.acc != 0)
+            {
+                hep::integrand<T, PlainFunc<T>, true> in(f, p.dims, params);
+                auto const r = hep::plain_iteration(in, calls, gen);
+                pc_->add(r, gen);
+            }
+            else
+            {
+                hep::integrand<T, PlainFunc<T>, false> in(f, p.dims, {});
+                auto const r = hep::plain_iteration(in, calls, gen);
+                pc_->add(r, gen);
+            }
+        }
+        else if (integ_ == VEGAS)
+        {
+            VegasFunc<T> f;
+            f.plan = &p;
+            f.cmap = &cmap;
+            hep::vegas_pdf<T> const grid(vc_->results().back().pdf());   // the state the last iteration was drawn with
+            vc_->rollback(n - 1);
+            E gen(vc_->generator());
+            if (p.acc != 0)
+            {
+                hep::integrand<T, VegasFunc<T>, true> in(f, p.dims, params);
+                auto const r = hep::vegas_iteration(in, calls, grid, gen);
+                vc_->add(r, gen);
+            }
+            else
+            {
+                hep::integrand<T, VegasFunc<T>, false> in(f, p.dims, {});
+                auto const r = hep::vegas_iteration(in, calls, grid, gen);
+                vc_->add(r, gen);
+            }
+        }
+        else
+        {
+            MultiFunc<T> f;
+            f.plan = &p;
+            f.cmap = &cmap;
+            MultiMap<T> m;
+            m.plan = &p;
+            m.cmap = &cmap;
+            std::vector<T> const weights(mc_->results().back().channel_weights());
+            mc_->rollback(n - 1);
+            E gen(mc_->generator());
+            if (p.acc != 0)
+            {
+                hep::multi_channel_integrand<T, MultiFunc<T>, MultiMap<T>, true> in(f, p.dims, m,
+                    p.mapd ? p.mapd : p.dims, p.chan, params);
+                auto const r = hep::multi_channel_iteration(in, calls, weights, gen);
+                mc_->add(r, gen);
+            }
+            else
+            {
+                hep::multi_channel_integrand<T, MultiFunc<T>, MultiMap<T>, false> in(f, p.dims, m,
+                    p.mapd ? p.mapd : p.dims, p.chan, {});
+                auto const r = hep::multi_channel_iteration(in, calls, weights, gen);
+                mc_->add(r, gen);
+            }
+        }
+    }
+    catch (...)
+    {
+        ok = false;
+    }
+
+    c.counting = false;
+    current_ctx() = prev;
+    return ok;
+}
+
 template <typename T, typename E>
 SerialRef Runner<T, E>::serial_iteration(Plan const& p, u64 k, RunCtl const& ctl) const
 {
